@@ -106,10 +106,54 @@ def _mk_goto(b, span):
     return t
 
 
+def _loop_heads(blocks):
+    """Blocks that can reach themselves (cheap: recomputed on demand, bodies are small)."""
+    key = id(blocks), len(blocks)
+    if _loop_heads.cache[0] == key:
+        return _loop_heads.cache[1]
+    succ = {b: [t for t in (k.term.targets or []) if t in blocks] for b, k in blocks.items() if not k.cleanup}
+    heads = set()
+    for b in succ:
+        seen, st = set(), list(succ[b])
+        while st:
+            n = st.pop()
+            if n == b:
+                heads.add(b)
+                break
+            if n in seen:
+                continue
+            seen.add(n)
+            st.extend(succ.get(n, []))
+    _loop_heads.cache = (key, heads)
+    return heads
+
+
+_loop_heads.cache = (None, set())
+
+
 def thread(body, rounds=12):
     """In-place on a body that is private to the caller (clone / inlined copy).  Returns the number of threaded edges."""
     blocks = body.blocks
     total = 0
+    # a call whose return edge enters a merge block gets a landing block of its own, so that the merge can be duplicated for it
+    preds0 = {}
+    for bid, blk in blocks.items():
+        if not blk.cleanup:
+            for t in (blk.term.targets or []):
+                preds0.setdefault(t, []).append(bid)
+    nxt = max(blocks) + 1 if blocks else 0
+    for bid in sorted(blocks):
+        blk = blocks[bid]
+        if blk.cleanup or blk.term.kind != 'call' or len(blk.term.targets or []) != 1:
+            continue
+        tg = blk.term.targets[0]
+        if len(set(preds0.get(tg, []))) > 1 and tg in blocks and not blocks[tg].cleanup:
+            e = mir.Block(nxt, False)
+            e.term = _mk_goto(tg, blk.term.span)
+            blocks[nxt] = e
+            blk.term.targets = [nxt]
+            nxt += 1
+    dup_budget = [300]
     for _ in range(rounds):
         preds = {}
         for bid, blk in blocks.items():
@@ -141,6 +185,19 @@ def thread(body, rounds=12):
                 seq = list(P.stmts) + list(S.stmts)
                 r = _resolve(seq, x)
                 if not r:
+                    # nothing to resolve: still give this predecessor its own copy of the branch (the value that reaches it
+                    # is then the one defined on this path only, once the other paths' flag stores are gone)
+                    if len(set(preds.get(sid, []))) > 1 and dup_budget[0] > 0 and sid not in _loop_heads(blocks):
+                        dup_budget[0] -= 1
+                        P.stmts = P.stmts + [_copy_stmt(s) for s in S.stmts]
+                        nt = mir.Term('switchInt', S.term.text, S.term.span)
+                        nt.discr = S.term.discr
+                        nt.cases = list(S.term.cases)
+                        nt.targets = [b for _v, b in nt.cases]
+                        nt.extra = list(S.term.extra)
+                        P.term = nt
+                        preds[sid] = [q for q in preds[sid] if q != pid]
+                        changed += 1
                     continue
                 if r[0] == 'const':
                     tgt = _switch_target(S.term.cases, r[1])
@@ -184,9 +241,71 @@ def thread(body, rounds=12):
     for b in [b for b, k in blocks.items() if b not in seen and not k.cleanup]:
         del blocks[b]
     body._threaded = total
+    total += _split_exits(body)
     if total:
-        _dead_flag_stores(body)
+        for _ in range(6):
+            if not _dead_flag_stores(body):
+                break
     return total
+
+
+def _copy_term_goto(t):
+    n = mir.Term(t.kind, t.text, t.span)
+    n.targets = list(t.targets)
+    n.place = t.place
+    n.discr = t.discr
+    n.cases = list(t.cases) if t.cases is not None else None
+    n.extra = list(t.extra)
+    return n
+
+
+def _split_exits(body, limit=10, max_new=400):
+    """Tail duplication towards the returns: a statement-only block that ends in `goto` / `return`, from which only such blocks
+    are reachable, and that has several predecessors, is copied for each predecessor — so that every path that decides a result
+    owns its exit (`return None` written once for two failed tests, or once per test, gives the same exits)."""
+    blocks = body.blocks
+    made = 0
+
+    def tailish(bid, seen=()):
+        k = blocks.get(bid)
+        if k is None or k.cleanup or bid in seen:
+            return False
+        if any(s.kind not in _TRIV and s.kind != 'assign' for s in k.stmts) or len([s for s in k.stmts if s.kind == 'assign']) > limit:
+            return False
+        if k.term.kind == 'return':
+            return True
+        if k.term.kind in ('goto', 'drop') and len(k.term.targets) == 1:
+            return tailish(k.term.targets[0], seen + (bid,))
+        if k.term.kind == 'switchInt' and k.term.targets and len(seen) < 12:      # drop-flag tests on the way out
+            return all(tailish(x, seen + (bid,)) for x in k.term.targets)
+        return False
+    for _ in range(8):
+        preds = {}
+        for bid, blk in blocks.items():
+            if blk.cleanup:
+                continue
+            for t in (blk.term.targets or []):
+                preds.setdefault(t, []).append(bid)
+        todo = [b for b in sorted(blocks) if len(set(preds.get(b, []))) > 1 and tailish(b)
+                and any(s.kind == 'assign' for s in blocks[b].stmts)]
+        if not todo or made > max_new:
+            break
+        nxt = max(blocks) + 1
+        for b in todo:
+            ps = sorted(set(preds.get(b, [])))
+            for p in ps[1:]:
+                src = blocks[b]
+                nb = mir.Block(nxt, False)
+                nb.stmts = [_copy_stmt(s) for s in src.stmts]
+                nb.term = _copy_term_goto(src.term)
+                blocks[nxt] = nb
+                pt = blocks[p].term
+                pt.targets = [nxt if x == b else x for x in pt.targets]
+                if pt.cases is not None:
+                    pt.cases = [(v, nxt if x == b else x) for v, x in pt.cases]
+                nxt += 1
+                made += 1
+    return made
 
 
 _TOK = re.compile(r'(?<![\w])_(\d+)\b')
@@ -234,6 +353,7 @@ def _uses_defs(blk):
 def _dead_flag_stores(body):
     """Remove `_f = const ..` / `_f = move _g` / `_f = Not(_g)` whose value is never read (flags made redundant by threading),
     so that the flow-insensitive describer does not merge them into the values that still reach a branch."""
+    removed = 0
     blocks = {b: k for b, k in body.blocks.items() if not k.cleanup}
     ud = {b: _uses_defs(k) for b, k in blocks.items()}
     live_in = {b: set(ud[b][0]) for b in blocks}
@@ -289,4 +409,7 @@ def _dead_flag_stores(body):
                 for m in _TOK.finditer(s.text or ''):
                     live.add('_' + m.group(1))
             keep.append(s)
+        if len(keep) != len(k.stmts):
+            removed += len(k.stmts) - len(keep)
         k.stmts = list(reversed(keep))
+    return removed
